@@ -93,9 +93,16 @@ def gen_geometry(rng, nm, matsyms):
     if rng.random() < 0.1:
         sources.append({'kind': 'idref', 'id': nm.fresh(), 'data': [nm.fresh() for _ in range(rng.randint(1, 3))], 'comps': ['MORPH_TARGET']})
     if rng.random() < 0.3:
+        # a second candidate positions source that no primitive reads
+        sources.append({'kind': 'float', 'id': nm.fresh(), 'data': [dy(rng) for _ in range(3 * rng.randint(1, 3))], 'comps': ['X', 'Y', 'Z']})
+    r = rng.random()
+    if r < 0.5:
+        # sources in arbitrary order: the constructor builds <vertices> for the FIRST source, which
+        # need not be the one the primitives take their VERTEX from (save() has to re-target it)
         rng.shuffle(sources)
+    elif r < 0.65:
         sources.remove(pos)
-        sources.insert(0, pos)      # the first source is the one <vertices> reads
+        sources.append(pos)
     prims = []
     for _ in range(rng.choice([0, 1, 1, 1, 2, 3])):
         kind = rng.choice(['triangles', 'triangles', 'lines', 'polylist', 'polygons'])
@@ -139,7 +146,7 @@ def gen_geometry(rng, nm, matsyms):
         p = {'kind': kind, 'inputs': inputs, 'indices': idx, 'vcounts': vcs, 'nind': nind,
              'material': rng.choice(matsyms) if (matsyms and rng.random() < 0.7) else None}
         prims.append(p)
-    return {'id': nm.fresh(), 'name': rng.choice(['', nm.fresh()]), 'sources': sources, 'prims': prims,
+    return {'id': nm.fresh(), 'name': rng.choice(['', nm.fresh()]), 'sources': sources, 'prims': prims, 'pos': pos['id'],
             'double_sided': rng.random() < 0.2}
 
 
@@ -320,7 +327,8 @@ def gen_edit_op(rng, nm, lib, libnodes):
     k = rng.choice(['rename', 'set_name', 'remove', 'node_transform', 'node_transform', 'node_del_transform', 'node_child',
                     'node_del_child', 'scene_node', 'source_data', 'add_prim', 'del_prim', 'geom_double_sided',
                     'effect_set', 'effect_shader', 'effect_misc', 'sampler_filters', 'surface_format', 'light_set',
-                    'camera_set', 'asset', 'contributor_set', 'matnode_inputs', 'geomnode_materials', 'add', 'add_source'])
+                    'camera_set', 'asset', 'contributor_set', 'matnode_inputs', 'geomnode_materials', 'add', 'add_source',
+                    'swap_positions', 'swap_positions', 'effect_set', 'effect_set'])
     i, j = rng.randrange(8), rng.randrange(8)
     if k == 'rename':
         return [k, rng.choice(['geometries', 'lights', 'cameras', 'images', 'effects', 'materials', 'scenes']), i, nm.fresh()]
@@ -345,6 +353,8 @@ def gen_edit_op(rng, nm, lib, libnodes):
         return [k, i, rng.randrange(3), gen_node(rng, nm, lib, 1, libnodes)]
     if k == 'source_data':
         return [k, i, j, rng.randint(1, 5)]
+    if k == 'swap_positions':
+        return [k, i, nm.fresh()]
     if k == 'add_source':
         return [k, i, {'kind': 'float', 'id': nm.fresh(), 'data': [dy(rng) for _ in range(2 * rng.randint(0, 3))], 'comps': ['S', 'T']}]
     if k == 'add_prim':
@@ -352,12 +362,10 @@ def gen_edit_op(rng, nm, lib, libnodes):
     if k == 'geom_double_sided':
         return [k, i, rng.random() < 0.5]
     if k == 'effect_set':
-        p = rng.choice(['emission', 'reflective', 'reflectivity', 'transparent', 'transparency', 'index_of_refraction'])
-        if p in FLOAT_PROPS:
-            v = rng.choice([None, ['float', dy(rng)]]) if p != 'reflectivity' else ['float', dy(rng)]
-        else:
-            v = rng.choice([None, ['color', gen_color(rng)], ['map', j, 'UV']])
-        return [k, i, p, v]
+        # the worker resolves the property among those of the effect's current shader
+        vc = rng.choice([None, ['color', gen_color(rng)], ['color', gen_color(rng)], ['map', j, 'UV']])
+        vf = rng.choice([None, ['float', dy(rng)], ['float', dy(rng)]])
+        return [k, i, rng.randrange(10), vc, vf]
     if k == 'effect_shader':
         sh = rng.choice(['phong', 'lambert', 'blinn', 'constant'])
         props = {}
@@ -399,6 +407,14 @@ def gen_edit_op(rng, nm, lib, libnodes):
     raise ValueError(k)
 
 
+def expand(rng, op):
+    """an edit, possibly preceded by the steps that make it bite: a shading property is first
+    removed and the document written, so that setting it re-introduces it into an existing element"""
+    if op[0] == 'effect_set' and (op[3] is not None or op[4] is not None) and rng.random() < 0.6:
+        return [[op[0], op[1], op[2], None, None], ['write'], op]
+    return [op]
+
+
 def gen_scratch(rng, n):
     nm = Names(rng, n * 1000)
     content, lib, libnodes = gen_content(rng, nm)
@@ -409,11 +425,11 @@ def gen_scratch(rng, n):
         if rng.random() < 0.5:
             ops.append(['write'])
         for _ in range(rng.randint(1, 5)):
-            ops.append(gen_edit_op(rng, nm, lib, libnodes))
+            ops += expand(rng, gen_edit_op(rng, nm, lib, libnodes))
         if rng.random() < 0.3:
             ops.append(['reload'])
             for _ in range(rng.randint(0, 3)):
-                ops.append(gen_edit_op(rng, nm, lib, libnodes))
+                ops += expand(rng, gen_edit_op(rng, nm, lib, libnodes))
     ops.append(['write'])
     return {'kind': 'scratch', 'ops': ops, 'pure': pure}
 
@@ -423,7 +439,9 @@ def gen_edit(rng, n, base_name):
     lib = {'cameras': [], 'lights': [], 'materials': [], 'geometries': []}
     ops = []
     for _ in range(rng.randint(0, 7)):
-        ops.append(gen_edit_op(rng, nm, lib, []))
+        ops += expand(rng, gen_edit_op(rng, nm, lib, []))
+        if ops[-1][0] == 'swap_positions' and rng.random() < 0.6:
+            ops.append(['write'])
         if rng.random() < 0.1:
             ops.append(['reload'])
         elif rng.random() < 0.1:
@@ -583,7 +601,8 @@ def model_cases(recipe, data):
             continue
         mesh = gx.find(q('mesh'))
         prims = [c for c in mesh if c.tag.split('}')[-1] in c04enc.PRIMS]
-        vref = g['sources'][0]['id']
+        # Geometry.save re-targets <vertices> at the source the primitives' VERTEX inputs name
+        vref = g['pos'] if g['prims'] else g['sources'][0]['id']
         vid = vref + '-vertices'
         for p, x in zip(g['prims'], prims):
             ins = sorted(p['inputs'], key=lambda i: SEM_ORDER.index(i[1]))
